@@ -69,4 +69,6 @@ def panel (f : Feat) : Panel :=
     prog := prog f,
     ctrl := .ssd (Ssd.por false 30 320) }
 
+attribute [driver_simp] W setRamArea setRamCounter useFullFrame lutFull setLutHelper setLut init updateFrame displayFrame prog
+
 end EpdVerif.Drivers.Epd2in9
